@@ -1,6 +1,6 @@
 """C42 -- known_hosts decisions match OpenSSH semantics.
 
-Spec: spec/KnownHosts.tla (+ KnownHosts_MC / KnownHosts_MCBig).  TLC (a) checks that the transcription of
+Spec: spec/KnownHosts.tla (+ KnownHosts_MC/MCL/MCF; root modules KnownHosts_MCQ quick, KnownHosts_MCBig thorough).  TLC (a) checks that the transcription of
 the package's algorithm (wildcardMatch, hostPatterns.match, hashedHost.match, checkAddr, check,
 IsHostAuthority/IsRevoked as wired by knownhosts.New) decides exactly as the declarative definition
 (Wild by "exists a split"; a line matches iff a positive pattern matches and no negated one does, on host
@@ -15,9 +15,7 @@ import concurrent.futures as cf
 import json
 import vlib
 
-MC = "KnownHosts_MC"
-MCL = "KnownHosts_MCL"
-MCF = "KnownHosts_MCF"
+MCQ = "KnownHosts_MCQ"
 BIG = "KnownHosts_MCBig"
 
 
@@ -55,13 +53,19 @@ def _par(ctx, jobs, max_parallel=6):
     return res
 
 
-def _cases(r, want_files):
-    """TRACE records of one run: the query list first, then the files."""
-    q = [t for t in r.traces if "queries" in t]
-    fs = [t for t in r.traces if "f" in t]
-    if len(q) < 1 or len(fs) != want_files:
-        raise vlib.Infra("generator emitted %d query lists and %d files, expected 1 and %d" % (len(q), len(fs), want_files))
-    return [q[0]] + fs
+def _cases(r, want):
+    """TRACE records of one run: the query list of each family first, then the files.  want: {family: number of files}."""
+    qs, fs = {}, []
+    for t in r.traces:
+        if "queries" in t:
+            qs[t["fam"]] = t
+        elif "f" in t:
+            fs.append(t)
+    for fam, n in want.items():
+        got = sum(1 for t in fs if t["fam"] == fam)
+        if fam not in qs or got != n:
+            raise vlib.Infra("generator emitted %d files of family %s (query list: %s), expected %d" % (got, fam, fam in qs, n))
+    return [qs[f] for f in want] + [t for t in fs if t["fam"] in want]
 
 
 def run(ctx):
@@ -90,37 +94,36 @@ def run(ctx):
             ctx.absorb(res)
             return
     T = ctx.thorough
-    jobs = [
-        dict(module=MC, cfg="W", emit=True, files=156),
-        dict(module=MCL, cfg="L2", emit=True, files=1200),
-        dict(module=MCF, cfg="F2q", emit=True, files=2971),
-        dict(module=MC, cfg="WOld", expect="WildAgree", workers=2,
-             note="pinned wildcardMatch (StarFix=FALSE): documents the trailing-star defect"),
-    ]
+    # one TLC run explores the three quick families (W: 156 files, L: 1200, F: 2971), each with its own query list
+    jobs = [dict(module=MCQ, cfg="Q", emit={"W": 156, "L": 1200, "F": 2971}, workers=16)]
     if T:
         jobs += [
-            dict(module=BIG, cfg="BigW", emit=True, files=780),
-            dict(module=BIG, cfg="BigL3"),
-            dict(module=MCF, cfg="F2"),
-            dict(module=BIG, cfg="F3r", emit=True, files=5832),
-            dict(module=MCL, cfg="L2Old", expect="Agree", workers=2, note="pinned wildcardMatch at file level"),
-            dict(module=MCF, cfg="DocCA", expect="Agree", workers=2,
+            dict(module=BIG, cfg="T", emit={"WB": 780, "F3": 5832}, workers=16),
+            # documentation only: the code before the repairs f023288 / ff86183 and the OpenSSH reading of
+            # @cert-authority lines; TLC must still find these counterexamples, the code is not expected to show them
+            dict(module=MCQ, cfg="WOld", expect="WildAgree", workers=2,
+                 note="documentation: former wildcardMatch (StarFix=FALSE): trailing '*' vs exhausted host"),
+            dict(module=MCQ, cfg="L2Old", expect="Agree", workers=2, note="documentation: former wildcardMatch at file level"),
+            dict(module=MCQ, cfg="SubjectOld", expect="Agree", workers=2,
+                 note="documentation: former IsRevoked (SubjectFix=FALSE): a certificate whose subject key is @revoked is accepted"),
+            dict(module=MCQ, cfg="DocCA", expect="Agree", workers=2,
                  note="OpenSSH reading: @cert-authority lines do not list plain host keys (the package accepts them)"),
-            dict(module=MCF, cfg="SubjectOld", expect="Agree", workers=2,
-                 note="pinned IsRevoked (SubjectFix=FALSE): a certificate whose subject key is @revoked is accepted"),
         ]
-    # TLC runs in threads; meanwhile the model-independent Go drivers run here
+    # TLC runs in a thread; meanwhile the drivers that need no TLC output (round trip, random files) run here
     with cf.ThreadPoolExecutor(max_workers=1) as ex:
         fut = ex.submit(_par, ctx, jobs)
-        res = ctx.go_test("c42", "TestRoundTrip", timeout=1200)
-        ctx.absorb(res)
-        ctx.log("round trip: %d address forms, %d ssh-keygen lookups" % (res.get("evaluations", 0), (res.get("extra") or {}).get("ssh_keygen_runs", 0)))
-        rt_kg = (res.get("extra") or {}).get("ssh_keygen_runs", 0)
+        kg = {"VERIF_KEYGEN_BUDGET": str(ctx.pick(80, 600)), "VERIF_KEYGEN_EVERY": str(ctx.pick(6, 8))}
+        res2 = ctx.go_test("c42", "TestModelIndependent", timeout=1800, env=kg)
+        ctx.absorb(res2)
+        ex2 = res2.get("extra") or {}
+        ctx.log("round trip: %d address forms (%d ssh-keygen lookups); random files: %d files, %d evaluations; %d ssh-keygen lookups in all"
+                % (ex2.get("roundtrip_evaluations", 0), ex2.get("roundtrip_ssh_keygen_runs", 0), ex2.get("files", 0),
+                   res2.get("evaluations", 0) - ex2.get("roundtrip_evaluations", 0), ex2.get("ssh_keygen_runs", 0)))
         results = fut.result()
     cases = []
     for j in jobs:
         if j.get("emit"):
-            cases += _cases(results[j["cfg"]], j["files"])
+            cases += _cases(results[j["cfg"]], j["emit"])
     kg = {"VERIF_KEYGEN_BUDGET": str(ctx.pick(120, 800)), "VERIF_KEYGEN_EVERY": str(ctx.pick(25, 12))}
     res = ctx.go_test("c42", "TestReplay", cases=cases, timeout=1800, env=kg)
     ctx.absorb(res)
@@ -128,12 +131,7 @@ def run(ctx):
     ctx.log("replay: %d files, %d evaluations, %d ssh-keygen lookups, %d hits of the trailing-star defect, %d of the revoked-subject defect"
             % (ex1.get("files", 0), res.get("evaluations", 0), ex1.get("ssh_keygen_runs", 0), ex1.get("star_defect_hits", 0),
                ex1.get("revoked_subject_hits", 0)))
-    kg = {"VERIF_KEYGEN_BUDGET": str(ctx.pick(80, 600)), "VERIF_KEYGEN_EVERY": str(ctx.pick(6, 8))}
-    res2 = ctx.go_test("c42", "TestRandomFiles", timeout=1800, env=kg)
-    ctx.absorb(res2)
-    ex2 = res2.get("extra") or {}
-    ctx.log("random files: %d files, %d evaluations, %d ssh-keygen lookups" % (ex2.get("files", 0), res2.get("evaluations", 0), ex2.get("ssh_keygen_runs", 0)))
-    ctx.extra["ssh_keygen_runs"] = rt_kg + ex1.get("ssh_keygen_runs", 0) + ex2.get("ssh_keygen_runs", 0)
+    ctx.extra["ssh_keygen_runs"] = ex1.get("ssh_keygen_runs", 0) + ex2.get("ssh_keygen_runs", 0)
     ctx.extra["reference_validated_on"] = ex1.get("reference_validated_on", 0)
     if not ex1.get("ssh_keygen_available", False):
         ctx.skipped.append("ssh-keygen not installed: the OpenSSH lookup comparison (ssh-keygen -F) was skipped")
